@@ -113,6 +113,9 @@ def shards(tier, seed):
             sp.append(dict(kind="big", n=n, s=ss))
     for ss in (["lo", 0], ["lo", 1], ["lo", 2], ["hi", 1], ["hi", 0]):
         sp.append(dict(kind="big", n=20, s=ss))
+    # n=24: the last shapes have more than 2**53 labellings (label ranks no longer fit a double)
+    for ss in (["hi", 0], ["hi", 1], ["hi", 2]):
+        sp.append(dict(kind="big", n=24, s=ss))
     for n in (30, 40):
         for ss in (["lo", 0], ["lo", 1], ["lo", 2]):
             sp.append(dict(kind="big", n=n, s=ss))
